@@ -176,6 +176,17 @@ func main() {
 			fmt.Fprintln(os.Stderr, err)
 			os.Exit(2)
 		}
+	case "trace-signature":
+		st, err := signature.RunTrace(*hdr, *edges, *walks, *seed)
+		if err != nil {
+			fmt.Fprintln(os.Stderr, "trace-signature:", err)
+			os.Exit(2)
+		}
+		b, _ := json.MarshalIndent(st, "", " ")
+		if err := os.WriteFile(*out, b, 0o644); err != nil {
+			fmt.Fprintln(os.Stderr, err)
+			os.Exit(2)
+		}
 	case "trace-minter":
 		st, err := minter.RunTrace(*edges, *walks, *seed)
 		if err != nil {
